@@ -103,6 +103,8 @@ UNIT_DRIVERS = {
     "recovery_flush": ["wal::crash_enum_quick"],
     "scan_filter_back": ["transaction::cursor_enum_quick"],
     "bptree_node": ["bptree_enum_quick"],
+    "history_filter": ["snapshot::timetravel_enum_quick"],
+    "vlog_file": ["sstable::table::min_vlog_file_id_enum"],
     "lock_order": ["transaction::cursor_enum_quick"],
 }
 
